@@ -7,7 +7,7 @@
    The model follows the code as it is, including its defects; flags select the repaired variants.
    NO proofs in this file. *)
 From CV Require Import Base.Tac Base.LinAlg Base.Cmp Base.QcLin.
-From Coq Require Import QArith Qcanon.
+From Coq Require Import QArith Qcanon Qabs.
 Open Scope Qc_scope.
 
 Definition qmat_t := list (list Qc).
@@ -76,6 +76,17 @@ Definition check_gauss_prior (fix29 : bool) (form : gform) (p : gparam) (P : qma
       match p with PVector v => q_close tol9 s (this (gauss_scalar_dot v mm x)) | _ => false end
   | _, _ => false
   end.
+
+(* magnitude sweep: comparison RELATIVE to the size of the vector (no absolute floor): |o_i - g_i| <= tol * max_j |g_j|
+   (entry-wise relative comparison would reject the rounding of entries that cancel to zero) *)
+Definition qmax (a b : Q) : Q := if Qle_bool a b then b else a.
+Definition qmaxabs (l : list Q) : Q := fold_right (fun a m => qmax (Qabs.Qabs a) m) 0%Q l.
+Definition q_close_rel (tol s a b : Q) : bool := Qle_bool (Qabs.Qabs (a - b)%Q) (tol * s)%Q.
+Definition vec_close_rel (tol : Q) (o : list Q) (g : list Qc) : bool :=
+  let gq := map this g in list_eqb (q_close_rel tol (qmaxabs gq)) o gq.
+Definition check_gauss_prior_rel (form : gform) (p : gparam) (P : qmat_t) (m x : list Qc) (g : list Q) : bool :=
+  let n := length x in
+  implied_prec_ok n form p P && symb n P && vec_close_rel tol9 g (quad_grad P (qbcast n m) x).
 
 (* logd(x1) - logd(x0) of the same object (the additive constant cancels) *)
 Definition check_quad_logd_diff (P : qmat_t) (m x0 x1 : list Qc) (dobs : Q) : bool :=
